@@ -153,6 +153,72 @@ struct SamplerCase
     double dist = 0;
 };
 
+// fine non-dyadic U01 alphabet: k/251 (k = 0..250), their one-ulp neighbours are not needed: 251 is prime, every value has full mantissas
+static const std::vector<double> &fineU()
+{
+    static std::vector<double> v = [] {
+        std::vector<double> r;
+        for (int k = 0; k < 251; ++k)
+            r.push_back(k / 251.0);
+        r.push_back(1.1102230246251565e-16);
+        r.push_back(1.0 - 1.1102230246251565e-16);
+        r.push_back(0.5);
+        return r;
+    }();
+    return v;
+}
+static bool &fineMode()
+{
+    static bool f = false;
+    return f;
+}
+
+// the range laws of the primitive generator calls the samplers are built from: lo <= uniformReal(lo,hi) <= hi, lo <= uniformInt(lo,hi) <= hi,
+// for every pair of a boundary-value alphabet and EVERY answer of the fine alphabet
+static void runRngRanges(const vf::Args &, vf::Report &rep)
+{
+    std::vector<double> B = {-1e12, -1000, -60, -37.5, -5, -3, -1, -0.1, 0, 1e-300, 0.1, 1, 3, 5, 37.5, 60, 1000, 1e12};
+    ompl::RNG rng;
+    for (size_t ui = 0; ui < fineU().size(); ++ui)
+        for (double lo : B)
+            for (double hi : B)
+            {
+                if (lo > hi)
+                    continue;
+                vc::Oracle o;
+                o.ua = fineU();
+                o.dev[0] = (int)ui + 1;
+                vc::Install inst(o);
+                double r = rng.uniformReal(lo, hi);
+                rep.evaluations++;
+                rep.transitions++;
+                std::string rj = "{\"mode\":\"rng\",\"lo\":" + vf::jnum(lo) + ",\"hi\":" + vf::jnum(hi) + ",\"u\":" + std::to_string(ui) + "}";
+                if (!(r >= lo && r <= hi))
+                    rep.fail("C08|rng|uniformReal-out-of-range", "uniformReal(" + vf::jnum(lo) + "," + vf::jnum(hi) + ") = " + vf::jnum(r) + " for u = " + vf::jnum(fineU()[ui]), rj);
+                vf::Hash h;
+                h.addd(lo);
+                h.addd(hi);
+                h.add(ui);
+                rep.nontrivial.insert(h.h);
+                vf::Hash oh;
+                oh.addd(r);
+                rep.outcomes.insert(oh.h);
+                if (lo == std::floor(lo) && hi == std::floor(hi) && std::fabs(lo) < 1e9 && std::fabs(hi) < 1e9)
+                {
+                    vc::Oracle o2;
+                    o2.ua = fineU();
+                    o2.dev[0] = (int)ui + 1;
+                    vc::Install inst2(o2);
+                    int k = rng.uniformInt((int)lo, (int)hi);
+                    rep.evaluations++;
+                    if (k < (int)lo || k > (int)hi)
+                        rep.fail("C08|rng|uniformInt-out-of-range", "uniformInt(" + vf::jnum(lo) + "," + vf::jnum(hi) + ") = " + std::to_string(k) + " for u = " + vf::jnum(fineU()[ui]), rj);
+                }
+            }
+    rep.states += B.size() * B.size();
+    rep.bounds["rng_fine_alphabet"] = std::to_string(fineU().size());
+}
+
 static void runSamplers(const std::string &name, const vf::Args &a, vf::Report &rep)
 {
     SpaceCfg c = makeSpace(name, 1);
@@ -189,6 +255,8 @@ static void runSamplers(const std::string &name, const vf::Args &a, vf::Report &
                         vc::Oracle o;
                         o.dev = dev;
                         o.horizon = 4000;
+                        if (fineMode())
+                            o.ua = fineU();
                         vc::Install inst(o);
                         // subspace samplers leave the other components alone: start from an in-bounds state
                         sp->copyState(out, P.st[ci]);
@@ -210,7 +278,7 @@ static void runSamplers(const std::string &name, const vf::Args &a, vf::Report &
                         rep.transitions++;
                         maxDraws = std::max<long>(maxDraws, o.trace.size());
                         std::string rj = "{\"mode\":\"sampler\",\"space\":" + vf::jesc(name) + ",\"sampler\":" + std::to_string(si) + ",\"call\":" + vf::jesc(mode) +
-                                         ",\"centre\":" + std::to_string(ci) + ",\"dist\":" + vf::jnum(dist) + ",\"dev\":" + vc::devJson(dev) + "}";
+                                         ",\"centre\":" + std::to_string(ci) + ",\"dist\":" + vf::jnum(dist) + ",\"fine\":" + (fineMode() ? "true" : "false") + ",\"dev\":" + vc::devJson(dev) + "}";
                         if (horizon)
                             rep.fail("C08|sampler|no-termination|" + name + "|" + sname[si] + "|" + mode, "sampler made more than 4000 draws (rejection loop does not terminate on this answer stream)", rj);
                         else if (!sp->satisfiesBounds(out))
@@ -244,7 +312,21 @@ static void runSamplers(const std::string &name, const vf::Args &a, vf::Report &
                     dbe.N = 12;
                     dbe.expired = [&] { return a.expired(); };
                     dbe.explore(run);
-                    if (prod.cut || dbe.cut)
+                    // fine sweep: ONE deviation among the first 6 draws, taken from a fine non-dyadic U01 alphabet (rounding of the
+                    // range formulas depends on the low bits of u, which the 8 boundary answers cannot reach)
+                    bool fineCut = false;
+                    if (strcmp(mode, "gauss") && (dist == dists[0] || dist == dists[1] || dist == dists[3]))
+                    {
+                        fineMode() = true;
+                        vc::DBE fine;
+                        fine.D = 1;
+                        fine.N = 6;
+                        fine.expired = [&] { return a.expired(); };
+                        fine.explore(run);
+                        fineMode() = false;
+                        fineCut = fine.cut;
+                    }
+                    if (prod.cut || dbe.cut || fineCut)
                     {
                         rep.exhaustive = false;
                         rep.caps.push_back("deadline during samplers of " + name);
@@ -418,6 +500,12 @@ int main(int argc, char **argv)
             if (n != "TimeUnbounded")
                 j.push_back("sampler-" + n);
         }
+        for (auto &n : pinnedSpaceNames())
+        {
+            j.push_back("enforce-" + n);
+            j.push_back("sampler-" + n);
+        }
+        j.push_back("rng-ranges");
         for (const char *k : {"uniform", "gaussian", "obstacle", "bridge", "maxclear", "minclear"})
             for (const char *s : {"R2", "SE2"})
                 j.push_back(std::string("valid-") + k + "-" + s);
@@ -428,6 +516,8 @@ int main(int argc, char **argv)
             runEnforce(job.substr(8), a, r);
         else if (job.substr(0, 8) == "sampler-")
             runSamplers(job.substr(8), a, r);
+        else if (job == "rng-ranges")
+            runRngRanges(a, r);
         else
             runValid(job, a, r);
         r.rule = "enforceBounds: lattice states + (products of) wild per-coordinate alphabets (many periods away, +-pi, +-1ulp outside, 1e300, denormalised/near-zero quaternions, out-of-range "
@@ -447,6 +537,8 @@ int main(int argc, char **argv)
             runEnforce(v["space"].s, a, r);
         else if (mode == "sampler")
             runSamplers(v["space"].s, a, r);
+        else if (mode == "rng")
+            runRngRanges(a, r);
         else
             runValid(v["job"].s, a, r);
         for (auto &f : r.failures)
